@@ -434,6 +434,44 @@ fn random_number_views(src: &mut Src, obs: &mut Obs) -> Res {
     if src.chance(1, 6) {
         return overflow_literal_views(src, obs);
     }
+    if src.chance(1, 5) {
+        // an "IN list" as programs write it: one operand compared with several literals, integers spelled as
+        // floats among them, on a type whose integers answer to `as_i64` only
+        let vals = [J::Int(10), J::Int(20), J::Int(2), J::Float(12.5), J::Float(10.0), J::Int(-1), J::Str("10".into()), J::Null];
+        let n = 1 + src.below(5);
+        let rows: Vec<J> = (0..n).map(|_| J::Obj(vec![("a".to_string(), src.pick(&vals).clone())])).collect();
+        let doc = J::Arr(rows);
+        let lits = ["10.0", "1E1", "2e1", "20", "12.5", "2", "2.0", "-1.0", "1.25e1", "'10'", "null"];
+        let k = 2 + src.below(4);
+        let alts: Vec<String> = (0..k)
+            .map(|_| {
+                let l = src.pick(&lits);
+                if src.chance(1, 4) {
+                    format!("{} == @.a", l)
+                } else {
+                    format!("@.a == {}", l)
+                }
+            })
+            .collect();
+        let text = format!("$[?{}]", alts.join(" || "));
+        obs.eval(2);
+        obs.label("or-chain-of-equalities");
+        obs.nontrivial(&(text.as_str(), doc.text()), || json!({"query": text, "doc": doc.to_value()}));
+        let rv = run_value(&doc.to_value(), &text);
+        let r1 = run_v1(&V1::from_j(&doc), &text).map(|x| x.0);
+        let same = match (&rv, &r1) {
+            (Ok(a), Ok(b)) => rows_equal(a, b),
+            (Err(a), Err(b)) => a.starts_with("Err") && b.starts_with("Err"),
+            _ => false,
+        };
+        if !same {
+            return Err(Failure::new(
+                "a chain of equalities selects different nodes on serde_json::Value and on a faithful Queryable type with separate integer and float variants",
+                json!({"query": text, "doc": doc.to_value(), "on_value": show(&rv), "on_other_type": show(&r1)}),
+            ));
+        }
+        return Ok(());
+    }
     let big_int = |src: &mut Src| -> i64 {
         let m = match src.below(4) {
             0 => (1i64 << 53) + src.range(0, 40),
